@@ -77,6 +77,16 @@ theorem gather_inv (env : GEnv) (cfg : GCfg) (idx n currPos : Nat) (isCrash : Bo
           exact ⟨rfl, hinc', fun _ => rfl, fun h => absurd h hs⟩
   · cases hg
 
+/-- the (possibly shortened) region stays inside whatever contains the unshortened one -/
+theorem capRegion_within (v l sp : Nat) (cap : Option Nat) (lo hi : Nat) (h1 : lo ≤ v) (h2 : v + l ≤ hi)
+    (hin : v ≤ sp ∧ sp < v + l) (hc : ∀ c, cap = some c → 0 < c) :
+    lo ≤ (capRegion v l sp cap).1 ∧ (capRegion v l sp cap).1 + (capRegion v l sp cap).2 ≤ hi := by
+  cases cap with
+  | none => simp only [capRegion]; omega
+  | some c =>
+    obtain ⟨c1, c2, _⟩ := C06_cap v l sp c (hc c rfl) hin
+    omega
+
 /-- … for requests inside `[lo, hi)` (what a reader over paged memory guarantees where the pages are readable:
     Theorems/EndToEndMem.lean) -/
 def ReadsExactlyIn (env : GEnv) (mem : Nat → UInt8) (lo hi : Nat) : Prop :=
